@@ -261,3 +261,37 @@ func zzSortHarness(maxRows, calls, maxDst int) {
 		zz.Assert(len(d.Keys) == n, "the output is a permutation of the input (same number of rows)")
 	}
 }
+
+// zzH_C10_sortReader_err: an input error at ANY position of the stream (before
+// the first row, in the middle of a batch, exactly on a batch boundary) is
+// reported either by SortReader itself or by the reader it returns -- never
+// turned into a clean end of stream -- and spill files are removed either way.
+func zzH_C10_sortReader_err() {
+	defer zzSetChunk(2)()
+	old := *numCanaryRows
+	*numCanaryRows = zz.AnyIntIn("canary", 1, 2)
+	defer func() { *numCanaryRows = old }()
+	n := zz.AnyIntIn("rows", 0, 3)
+	m := sliceio.ZZNewModel("in", n)
+	m.MaxEmpty = 1
+	m.FailAt = zz.AnyIntIn("failAt", 0, n)
+	target := zz.AnyIntIn("spillTarget", 1, 3)
+	ctx := context.Background()
+	r, err := SortReader(ctx, target, zzTyp, m)
+	zz.Assert(zzCleaned == 1, "spill files are removed before SortReader returns")
+	if !m.Failed() {
+		return // the stream ended (EOF together with its last rows) before the failure point
+	}
+	if m.FailAt == 0 {
+		zz.Reach("input fails before its first row")
+	} else if m.FailAt%(*numCanaryRows) == 0 {
+		zz.Reach("input fails exactly on a batch boundary")
+	} else {
+		zz.Reach("input fails inside a batch")
+	}
+	if err != nil {
+		return // reported by SortReader itself
+	}
+	d := sliceio.ZZDriveReader(r, 5, 1, 2, "dst")
+	zz.Assert(d.Err != sliceio.EOF, "a read error of the input is reported, never swallowed as end-of-stream")
+}
